@@ -85,6 +85,12 @@ impl MemoryStore {
     }
 
     /// Create new [`MemoryStore`] with the provided configuration.
+    /// The configuration this store was constructed with (read-only; `node` area).
+    #[cfg(litep2p_verif)]
+    pub(crate) fn verif_config(&self) -> &MemoryStoreConfig {
+        &self.config
+    }
+
     pub fn with_config(local_peer_id: PeerId, config: MemoryStoreConfig) -> Self {
         Self {
             local_peer_id,
